@@ -8,51 +8,52 @@
    (compact = true / false).  The implementation is tied to BOTH models on every check run (three-way
    comparison impl / Map / Spec over all five types). *)
 From ZV Require Import Common.Bytes Data.Consts Data.Base Data.MapEq Data.Map Data.MapL Data.MapK Data.Spec Data.SpecL Data.SpecK Data.Run
-  Data.RepColl Data.RepState Data.RefHS Data.RefCmd Data.RefK Data.RefL Data.C08Proofs.
+  Data.RepColl Data.RepState Data.RefHS Data.RefCmd Data.RefK Data.RefL Data.MapZ Data.C08Proofs.
 Open Scope Z_scope.
 
-(* the full statement: every command of the documented set *)
+(* the unconditional statement: every command sequence with increasing timestamps *)
 Definition C08_full : Prop := forall (compact : bool) (cs : list (Z * cmd)),
   increasing 0 cs -> map_trace compact cs m_init = spec_trace cs s_init.
 
-(* (1) PARTIAL: proved for sequences made of the string (KV), hash, set and list commands — writes SET SETNX
-   GETSET INCR INCRBY APPEND SETRANGE DEL, HSET HSETNX HMSET HDEL HINCRBY HCLEAR, SADD SREM SPOP SCLEAR, LPUSH RPUSH
-   LPOP RPOP LSET LTRIM LCLEAR and all their reads (GET MGET GETRANGE STRLEN EXISTS, HGET HMGET HEXISTS HLEN HGETALL
-   HKEYS HVALS HKEYEXIST, SCARD SISMEMBER SMEMBERS SRANDMEMBER SKEYEXIST, LLEN LINDEX LRANGE LKEYEXIST): equal
-   replies command by command.  [adm_run]: no LPUSH/RPUSH may use up the 2^61 sequence numbers on its side of a list
-   (then rockredis answers errListSeq, which Redis has no counterpart for).
-   Missing for the full statement: the sorted-set commands (for those the representation invariant of C09 is
-   proved and the three-way comparison runs on every check, but not the refinement), and SETRANGE with a negative
-   offset (a Go slice panic, outside the generated inputs). *)
-Theorem C08_kv_hash_set_list_partial : forall (compact : bool) (cs : list (Z * cmd)),
-  increasing 0 cs -> forallb (fun tc => covered (snd tc)) cs = true -> adm_run compact cs m_init ->
+(* (1) ALL FIVE TYPES: every command of the model — strings SET SETNX GETSET INCR INCRBY APPEND SETRANGE DEL, hashes
+   HSET HSETNX HMSET HDEL HINCRBY HCLEAR, sets SADD SREM SPOP SCLEAR, sorted sets ZADD ZINCRBY ZREM ZREMRANGEBYRANK
+   ZREMRANGEBYSCORE ZREMRANGEBYLEX ZCLEAR, lists LPUSH RPUSH LPOP RPOP LSET LTRIM LCLEAR, and every read (GET MGET
+   GETRANGE STRLEN EXISTS; HGET HMGET HEXISTS HLEN HGETALL HKEYS HVALS HKEYEXIST; SCARD SISMEMBER SMEMBERS SRANDMEMBER
+   SKEYEXIST; ZCARD ZSCORE ZRANGE ZREVRANGE ZRANGEBYSCORE ZREVRANGEBYSCORE ZRANGEBYLEX ZCOUNT ZLEXCOUNT ZRANK ZREVRANK
+   ZKEYEXIST; LLEN LINDEX LRANGE LKEYEXIST), malformed / failing commands included — gives the Spec reply, command by
+   command.  It is C08_full under the domain hypothesis [adm_run] (hence _partial):
+     * no LPUSH/RPUSH uses up the 2^61 sequence numbers on its side of a list (rockredis then answers errListSeq,
+       for which Redis has no counterpart);
+     * ZRANGE / ZREVRANGE / Z(REV)RANGEBYSCORE / ZRANGEBYLEX / ZREMRANGEBYRANK run on sorted sets of at most 5000
+       members (the documented bulk limit; above it the two models are not proved to fail on the same inputs). *)
+Theorem C08_all_commands_partial : forall (compact : bool) (cs : list (Z * cmd)),
+  increasing 0 cs -> adm_run compact cs m_init ->
   map_trace compact cs m_init = spec_trace cs s_init.
-Proof. exact khs_all_sequences. Qed.
-Print Assumptions C08_kv_hash_set_list_partial.
+Proof. exact all_sequences_ref. Qed.
+Print Assumptions C08_all_commands_partial.
 
-(* (2) the resulting data: after such a sequence every stored hash / set record abstracts (as a finite map,
-   current generation only) to the Spec value at the same key, every list record abstracts (values at the
+(* (2) the resulting data: after such a sequence every stored hash / set / sorted-set record abstracts (as a finite
+   map, current generation only) to the Spec value at the same key, every list record abstracts (values at the
    sequences head..tail) to the Spec list, and the string stores are equal *)
-Theorem C08_kv_hash_set_list_data_partial : forall (compact : bool) (cs : list (Z * cmd)),
-  increasing 0 cs -> forallb (fun tc => covered (snd tc)) cs = true -> adm_run compact cs m_init ->
+Theorem C08_all_commands_data_partial : forall (compact : bool) (cs : list (Z * cmd)),
+  increasing 0 cs -> adm_run compact cs m_init ->
   simS compact (last_ts 0 cs) (map_run compact cs m_init) (spec_run cs s_init).
 Proof.
-  intros compact cs I Cv Ad. exact (proj2 (trace_ref compact cs 0 m_init s_init (simS_init compact) (Z.le_refl 0) I Cv Ad)).
+  intros compact cs I Ad. exact (proj2 (trace_ref compact cs 0 m_init s_init (simS_init compact) (Z.le_refl 0) I Ad)).
 Qed.
-Print Assumptions C08_kv_hash_set_list_data_partial.
+Print Assumptions C08_all_commands_data_partial.
 
 (* (3) one step, from any related pair of states (incl. failing commands) *)
-Theorem C08_step_partial : forall (compact : bool) (clock ts : Z) (c : cmd) (ms : mstate) (ss : sstate),
-  simS compact clock ms ss -> 0 <= clock < ts -> covered c = true -> admissible ms c ->
+Theorem C08_step : forall (compact : bool) (clock ts : Z) (c : cmd) (ms : mstate) (ss : sstate),
+  simS compact clock ms ss -> 0 <= clock < ts -> admissible ms c ->
   snd (map_step compact ts c ms) = snd (spec_step c ss) /\
   simS compact ts (fst (map_step compact ts c ms)) (fst (spec_step c ss)).
 Proof. exact step_ref. Qed.
-Print Assumptions C08_step_partial.
+Print Assumptions C08_step.
 
 (* (4) strings: the two models are literally the same function on duplicate-free stores *)
 Theorem C08_kv : forall (ts : Z) (c : kcmd) (m : list (bytes * bytes)),
-  NoDup (map fst m) -> (match c with KCsetrange _ off _ => 0 <= off | _ => True end) ->
-  MapK.kstep ts c m = SpecK.kstep c m.
+  NoDup (map fst m) -> MapK.kstep ts c m = SpecK.kstep c m.
 Proof. exact kstep_ref. Qed.
 Print Assumptions C08_kv.
 
@@ -102,10 +103,15 @@ Definition ex_cs8 : list (Z * cmd) :=
     (7, CHdel kk [bb; bb]);
     (8, CL kk (LCpush false [ba; bb; b1]));
     (9, CL kk (LCtrim (-2) 9223372036854775807));
-    (10, QHgetall kk); (11, QSmembers kk); (12, QK (KQget kk)); (13, QL kk (LQrange 0 (-1))) ].
-Example C08_ex_covered : increasing 0 ex_cs8 /\ forallb (fun tc => covered (snd tc)) ex_cs8 = true /\ adm_run false ex_cs8 m_init.
-Proof. split; [cbn; repeat split; reflexivity|split; [reflexivity|]]. vm_compute. repeat split; reflexivity. Qed.
+    (10, CZ kk (ZCadd [(SFin 2, ba); (SFin 1, ba); (SFin 1, bb)]));
+    (11, CZ kk (ZCincrby (SFin 0) ba));
+    (12, CZ kk (ZCremrangebyrank 1 9223372036854775807));
+    (13, QHgetall kk); (14, QSmembers kk); (15, QK (KQget kk)); (16, QL kk (LQrange 0 (-1)));
+    (17, QZ kk (ZQrange false 0 (-1) true)) ].
+Example C08_ex_admissible : increasing 0 ex_cs8 /\ adm_run false ex_cs8 m_init.
+Proof. split; [cbn; repeat split; reflexivity|]. vm_compute. repeat split; try reflexivity; discriminate. Qed.
 Example C08_ex_trace : spec_trace ex_cs8 s_init =
-  [RNil; RInt 10; RInt 2; RInt 1; RInt 1; RInt 10; RInt 1; RInt 3; RNil;
-   RArr [RBulk ba; RBulk [49; 48]%N]; RArr [RBulk bb]; RBulk [49; 48]%N; RArr [RBulk bb; RBulk ba]].
+  [RNil; RInt 10; RInt 2; RInt 1; RInt 1; RInt 10; RInt 1; RInt 3; RNil; RInt 2; RFloat (SFin 1); RInt 1;
+   RArr [RBulk ba; RBulk [49; 48]%N]; RArr [RBulk bb]; RBulk [49; 48]%N; RArr [RBulk bb; RBulk ba];
+   RArr [RBulk ba; RFloat (SFin 1)]].
 Proof. vm_compute. reflexivity. Qed.
